@@ -932,7 +932,7 @@ pub fn hash_collision_pairs_from(per_kind: usize, big: bool) -> Vec<(RefPos, Ref
     all.extend(collect(&EpFamily { extra: Extra::None, pre_push: false }));
     let hashed: Vec<(u64, RefPos)> = all.par_iter().filter_map(|p| crate::bridge::from_scratch(p).ok().map(|b| (b.get_hash(), *p))).collect();
     let mut out = vec![];
-    let kinds: [(&'static str, fn(u64) -> u64); 7] = [("low 32 bits", |h| h & 0xFFFF_FFFF), ("high 32 bits", |h| h >> 32), ("low 16 bits", |h| h & 0xFFFF), ("low 24 bits", |h| h & 0xFF_FFFF), ("xor-folded 32 bits", |h| (h ^ (h >> 32)) & 0xFFFF_FFFF), ("high 32 bits and low 8 bits", |h| (h >> 32 << 8) | (h & 0xFF)), ("high 16 bits and low 16 bits", |h| (h >> 48 << 16) | (h & 0xFFFF))];
+    let kinds: [(&'static str, fn(u64) -> u64); 8] = [("low 32 bits", |h| h & 0xFFFF_FFFF), ("high 32 bits", |h| h >> 32), ("low 16 bits", |h| h & 0xFFFF), ("low 24 bits", |h| h & 0xFF_FFFF), ("xor-folded 32 bits", |h| (h ^ (h >> 32)) & 0xFFFF_FFFF), ("high 32 bits and low 8 bits", |h| (h >> 32 << 8) | (h & 0xFF)), ("high 16 bits and low 16 bits", |h| (h >> 48 << 16) | (h & 0xFFFF)), ("high 32 bits of the key multiplied by the 64-bit golden-ratio constant (Fibonacci hashing)", |h| h.wrapping_mul(0x9E37_79B9_7F4A_7C15) >> 32)];
     for (name, f) in kinds {
         let mut v: Vec<(u64, u64, RefPos)> = hashed.iter().map(|(h, p)| (f(*h), *h, *p)).collect();
         v.par_sort_unstable_by_key(|x| (x.0, x.1));
@@ -1058,6 +1058,102 @@ fn wide_collision_pairs(per_kind: usize) -> Vec<(RefPos, RefPos, &'static str)> 
         eprintln!("wide_collision_pairs: {confirmed} confirmed pairs among {} predicted keys", v.len());
     }
     out
+}
+
+/// Every curated root under every OTHER valid castling-rights set of its placement (subsets of the rights that
+/// king and rooks at home allow) and with the other side to move: same men, another state.
+pub fn state_sibling_family() -> ListFamily {
+    let mut items = vec![];
+    for r in roots() {
+        let p = r.pos;
+        let mut maxr = 0u8;
+        for (bit, col, rf) in [(WK, Col::W, 7i8), (WQ, Col::W, 0), (BK, Col::B, 7), (BQ, Col::B, 0)] {
+            let hr = col.home_rank();
+            if p.at(sq(4, hr)) == Some((Kind::K, col)) && p.at(sq(rf, hr)) == Some((Kind::R, col)) {
+                maxr |= bit;
+            }
+        }
+        for rights in 0..16u8 {
+            if rights & !maxr != 0 {
+                continue;
+            }
+            for flip in [false, true] {
+                let mut q = p;
+                q.castle = rights;
+                if flip {
+                    q.stm = p.stm.flip();
+                    q.dp = -1;
+                }
+                if q != p && q.is_valid() {
+                    items.push(q);
+                }
+            }
+        }
+    }
+    items.sort();
+    items.dedup();
+    ListFamily { label: "state siblings of the curated roots: every other valid castling-rights set of the same placement, either side to move".into(), items }
+}
+
+/// Terminal and nearly terminal positions in which the side to move has men of its own that cannot move:
+/// K + X + P v K + p with the two pawns blocking each other on one file (X in Q, R, B, N anywhere, both kings
+/// anywhere, both colours), kept when the side that owns X is to move and has at most ONE legal move
+/// (mates, stalemates, only-move positions).  Complete for that material class.
+pub fn blocked_pawn_terminals() -> ListFamily {
+    // generated offline by `cv --gen-blocked-terminals` (reference model only) and stored, like the feature roots
+    let mut items = vec![];
+    for line in include_str!("../blocked_terminals.txt").lines() {
+        let line = line.trim();
+        if line.is_empty() || line.starts_with('#') {
+            continue;
+        }
+        let p = RefPos::from_fen(line).unwrap_or_else(|e| panic!("machinery: blocked_terminals.txt: {line}: {e}"));
+        assert!(p.is_valid() && p.legal_moves().len() <= 1, "machinery: blocked_terminals.txt: {line} is not a valid at-most-one-move position");
+        items.push(p);
+    }
+    ListFamily { label: "K+X+P v K+p with the pawns blocking each other (X = Q, R, B, N anywhere; kings anywhere; both colours): every position in which the owner of X is to move and has at most one legal move".into(), items }
+}
+pub fn generate_blocked_pawn_terminals() -> ListFamily {
+    use rayon::prelude::*;
+    let jobs: Vec<(Kind, i8, i8, Col)> = [Kind::Q, Kind::R, Kind::B, Kind::N].into_iter().flat_map(|k| (0..8i8).flat_map(move |f| (1..6i8).flat_map(move |r| [Col::W, Col::B].into_iter().map(move |c| (k, f, r, c))))).collect();
+    let items: Vec<RefPos> = jobs
+        .par_iter()
+        .flat_map_iter(|(kind, f, r, me)| {
+            let mut out = vec![];
+            // white pawn on (f, r), black pawn on (f, r + 1): blocked both ways
+            let mut base = RefPos::empty();
+            base.stm = *me;
+            base.put(sq(*f, *r), Kind::P, Col::W);
+            base.put(sq(*f, r + 1), Kind::P, Col::B);
+            for mk in 0..64u8 {
+                let mut p1 = base;
+                if !place(&mut p1, mk, Kind::K, *me) {
+                    continue;
+                }
+                for ek in 0..64u8 {
+                    let mut p2 = p1;
+                    if !place(&mut p2, ek, Kind::K, me.flip()) {
+                        continue;
+                    }
+                    let (df, dr) = ((file_of(mk) - file_of(ek)).abs(), (rank_of(mk) - rank_of(ek)).abs());
+                    if df <= 1 && dr <= 1 {
+                        continue;
+                    }
+                    for xs in 0..64u8 {
+                        let mut p3 = p2;
+                        if !place(&mut p3, xs, *kind, *me) {
+                            continue;
+                        }
+                        if p3.is_valid() && p3.legal_moves().len() <= 1 {
+                            out.push(p3);
+                        }
+                    }
+                }
+            }
+            out
+        })
+        .collect();
+    ListFamily { label: "K+X+P v K+p with the pawns blocking each other (X = Q, R, B, N anywhere; kings anywhere; both colours): every position in which the owner of X is to move and has at most one legal move".into(), items }
 }
 
 /// A family given by an explicit list.
